@@ -294,7 +294,7 @@ def decide_equal(a: sp.Expr, b: sp.Expr, trig: bool = False) -> Tuple[Optional[b
     # witness search at exact rational points
     syms = sorted(d.free_symbols, key=lambda x: x.name)
     funcs = sorted(d.atoms(sp.Function) - d.atoms(sp.sin, sp.cos, sp.exp, sp.log, sp.Abs, sp.conjugate, sp.re, sp.im, sp.Min, sp.Max),
-                   key=str)
+                   key=lambda f_: (-len(str(f_)), str(f_)))     # outermost applications first: replacing one removes its inner applications
     trials = [(pts, 1) for pts in _POINTS] + [(_POINTS[0], -1), (_POINTS[1], -1)]
     for pts, sgn in trials:
         sub = {s_: (pts[i % len(pts)] + (i // len(pts))) * (1 if (sgn == 1 or s_.is_positive) else (-1 if i % 2 == 0 else 1))
@@ -394,8 +394,9 @@ def term_definite_difference(a, b, depth=0):
         if (va is None or isinstance(va, (str, bool))) and (vb is None or isinstance(vb, (str, bool))) and va != vb:
             return f"constant {va!r} vs {vb!r}"
         return None
-    idx_like = ("const", "loopvar", "bin", "un", "elem", "sub")
-    if ka in idx_like and kb in idx_like and (ka != kb or ka in ("bin", "loopvar", "elem")):
+    idx_like = ("const", "loopvar", "bin", "un", "elem", "sub", "sym")
+    if ka in idx_like and kb in idx_like and (ka != kb or ka in ("bin", "loopvar", "elem", "sym")) and \
+            not (ka == "const" and not isinstance(a[1], (int, float))) and not (kb == "const" and not isinstance(b[1], (int, float))):
         # index arithmetic over loop variables / constants
         try:
             lv = {}
